@@ -268,11 +268,31 @@ def strip_docstrings(tree):
     return tree
 
 
+def conj_name(tree):
+    """.conjugate() <-> .conj(), np.conjugate(x) <-> np.conj(x)"""
+    for n in ast.walk(tree):
+        if isinstance(n, ast.Attribute) and n.attr in ('conjugate', 'conj'):
+            n.attr = 'conj' if n.attr == 'conjugate' else 'conjugate'
+    return tree
+
+
+def transpose_T(tree):
+    """X.transpose() (no arguments) <-> X.T"""
+    class R(ast.NodeTransformer):
+        def visit_Call(self, n):
+            self.generic_visit(n)
+            if isinstance(n.func, ast.Attribute) and n.func.attr == 'transpose' and not n.args and not n.keywords \
+                    and not (isinstance(n.func.value, ast.Name) and n.func.value.id in ('np', 'numpy')):
+                return ast.copy_location(ast.Attribute(value=n.func.value, attr='T', ctx=ast.Load()), n)
+            return n
+    return R().visit(tree)
+
+
 def unparse_only(tree):
     return tree
 
 
-TRANSFORMS = {'sqrt-swap': sqrt_swap, 'range-zero': range_zero, 'conj-T': conj_T, 'strip-docstrings': strip_docstrings, 'extract-call-args': extract_call_args, 'split-tuple-assign': split_tuple_assign, 'return-temp': return_temp, 'else-after-return': else_after_return, 'dot-to-matmul': dot_to_matmul, 'compare-swap': compare_swap, 'rename-locals': rename_locals, 'swap-commute': swap_commute, 'flip-if-else': flip_if_else, 'unparse': unparse_only}
+TRANSFORMS = {'conj-name': conj_name, 'transpose-T': transpose_T, 'sqrt-swap': sqrt_swap, 'range-zero': range_zero, 'conj-T': conj_T, 'strip-docstrings': strip_docstrings, 'extract-call-args': extract_call_args, 'split-tuple-assign': split_tuple_assign, 'return-temp': return_temp, 'else-after-return': else_after_return, 'dot-to-matmul': dot_to_matmul, 'compare-swap': compare_swap, 'rename-locals': rename_locals, 'swap-commute': swap_commute, 'flip-if-else': flip_if_else, 'unparse': unparse_only}
 
 
 def run_one(args):
